@@ -103,7 +103,7 @@ func writeDevModeFiles() error {
 	dir := filepath.Join(filepath.Dir(self), "corpus")
 	h := generatecmd.NewFSEventHandler(slog.New(slog.NewTextHandler(io.Discard, nil)), dir, true, nil, false, true,
 		func(string, []byte) error { return nil }, false)
-	for _, f := range []string{"c.templ", "lit.templ", "shapes.templ"} {
+	for _, f := range []string{"c.templ", "lit.templ", "shapes.templ"} { // shapes.templ holds all seeded families
 		if _, err := h.HandleEvent(context.Background(), fsnotify.Event{Name: filepath.Join(dir, f), Op: fsnotify.Write}); err != nil {
 			return err
 		}
